@@ -100,12 +100,16 @@ PROPS['C11'] = {
     ],
 }
 
+# ~condition_variable() with a non-empty queue (a documented precondition violation) calls abort_all<no_mutex>: kept out of line and cut,
+# i.e. replaced by an assertion that it is never reached (its intrusive-list walk over every frame costs CBMC minutes per call site)
+CV_ABORT_ALL = '_ZN4pika6detail18condition_variable9abort_allINS_8no_mutexE'
 PROPS['C07'] = {
     'assumptions': SYNC_ASSUMPTIONS + ['User lock: std::unique_lock over the contract spinlock (quick) and over the real pika::mutex (thorough); waiters use the predicate-loop idiom for plain waits.'],
     'queries': [
         dict(name='cv_notify_W1', kernel='C07_condvar.cpp', prefix='cvn_', mode='res', lower_defs=['-DNWAITERS=1'], shim='shim_sync', inline=20000, R=3, BMAX=60, unwind=3, covers=[0], timeout=2400),
         dict(name='cv_timed', kernel='C07_condvar.cpp', prefix='cvt_', mode='res', lower_defs=['-DNWAITERS=1'], shim='shim_sync', inline=20000, R=3, BMAX=60, unwind=3, covers=[0], timeout=2400),
-        dict(name='cv_stop_token', kernel='C07_condvar.cpp', prefix='cvs_', mode='res', lower_defs=['-DNWAITERS=1'], shim='shim_sync', inline=20000, R=3, BMAX=60, unwind=3, covers=[0], timeout=2400),
+        dict(name='cv_stop_token', kernel='C07_condvar.cpp', prefix='cvs_', mode='res', lower_defs=['-DNWAITERS=1'], shim='shim_sync', inline=20000, R=3, BMAX=60, unwind=3, covers=[0], timeout=2400,
+             noinline=[CV_ABORT_ALL + '.*'], cut=[CV_ABORT_ALL]),
         dict(name='cv_notify_W2', kernel='C07_condvar.cpp', prefix='cvn_', mode='res', lower_defs=['-DNWAITERS=2'], shim='shim_sync', inline=20000, R=3, BMAX=60, unwind=4, covers=[0], timeout=6000, tiers=('thorough',)),
         dict(name='cv_notify_W1_pikamutex', kernel='C07_condvar.cpp', prefix='cvn_', mode='res', lower_defs=['-DNWAITERS=1', '-DUSE_PIKA_MUTEX'], shim='shim_sync', inline=20000, R=3, BMAX=60, unwind=3, covers=[0], timeout=6000, tiers=('thorough',)),
     ],
@@ -143,7 +147,7 @@ PROPS['C12'] = {
         'Context switch assembly, stack allocation and stack-size selection (K1/K2) are NOT covered by any check.',
     ],
     'queries': [
-        dict(name='recycle_stackless', kernel='C12_recycle.cpp', prefix='rec_', mode='seq', inline=20000, unwind=4, covers=[0], timeout=1800),
+        dict(name='recycle_stackless', kernel='C12_recycle.cpp', prefix='rec_', mode='seq', inline=20000, unwind=26, covers=[0], timeout=1800),
     ],
 }
 
@@ -156,7 +160,8 @@ THREAD_ASSUMPTIONS = [
 PROPS['C13'] = {
     'assumptions': THREAD_ASSUMPTIONS + ['jthread, interruption delivery and detach are not covered yet.'],
     'queries': [
-        dict(name='join_vs_exit', kernel='C13_thread_join.cpp', prefix='jn_', mode='res', shim='shim_sync', inline=20000, R=3, BMAX=80, unwind=3, covers=[0], timeout=2400),
+        dict(name='join_vs_exit', kernel='C13_thread_join.cpp', prefix='jn_', mode='res', shim='shim_sync', inline=20000, R=3, BMAX=80, unwind=3, covers=[0], timeout=3600, mem_gb=24,
+             cut=['_ZN4pika7threads6detail11thread_data14destroy_threadEv'], unwind_rules=[(r'resume_thread', 6)]),
     ],
 }
 
@@ -195,4 +200,18 @@ PROPS['C10'] = {
         'NOT covered: worker-hint placement under the static policies (queue selection in the *_queue_scheduler classes), std_thread_scheduler, bulk placement, resource-partitioner layouts, OS-level thread identity.',
     ],
     'queries': [dict(name='placement_two_pools', kernel='C10_placement.cpp', prefix='plc_', mode='seq', inline=20000, unwind=26, covers=[0], timeout=1800)],
+}
+
+_modes = {'compact': 1, 'scatter': 2, 'balanced': 4, 'numa_balanced': 8}
+PROPS['C15'] = {
+    'assumptions': [
+        'Real parse_affinity_options.cpp decode_*_distribution + check_num_threads; hwloc is the environment: the topology member functions used by the decoder are defined over a symbolic machine '
+        '(core index modulo #cores, PU index modulo arity, PU numbering consecutive). Mask representation: the 64-bit configuration (PIKA_HAVE_MAX_CPU_COUNT=64).',
+        'Machine SHAPE is a parameter of each query (sockets x cores/socket x PUs/core); process mask (any non-empty subset), thread count in [1,#PUs+1] and use-of-mask are symbolic; used_cores = 0; error mode throws.',
+        'Not covered: affinity_data / resource-partitioner pool assignment, the worker applying the mask through hwloc, binding "none".',
+    ],
+    'queries': [dict(name='%s_s2c1p2' % n, kernel='C15_affinity.cpp', prefix='aff_', mode='seq', inline=20000, unwind=6, lower_defs=['-DPIKA_HAVE_MAX_CPU_COUNT=64'], params=[m, 2, 1, 2], covers=[0], timeout=3000)
+                for n, m in _modes.items()] +
+               [dict(name='%s_s2c2p1' % n, kernel='C15_affinity.cpp', prefix='aff_', mode='seq', inline=20000, unwind=6, lower_defs=['-DPIKA_HAVE_MAX_CPU_COUNT=64'], params=[m, 2, 2, 1], covers=[0], timeout=6000,
+                     tiers=('thorough',)) for n, m in _modes.items()],
 }
